@@ -167,6 +167,19 @@ def gen_grammar(rng, want_clash=None):
     top_alts = [([keyword()] + [nm], None) for nm in names]
     if rng.random() < 0.3:
         top_alts.append(([keyword(), names[0], names[-1]], None))
+    # duplicate string recognizers + inline string references: which terminal an inline string resolves to is decided
+    # by the order in which the builder's terminal map is iterated (last insert wins)
+    if rng.random() < 0.35 and kw[0] >= 1:
+        for _ in range(rng.randint(1, 2)):
+            i = rng.randint(1, kw[0])
+            s_i = terms[f"K{i}"]
+            for pre in rng.sample(["D", "Z", "Kk"], rng.randint(1, 2)):
+                terms[f"{pre}{i}"] = s_i
+            for _nm, alts in rules + [(start, top_alts)]:
+                for a, _k in alts:
+                    for j, tok in enumerate(a):
+                        if tok == f"K{i}":
+                            a[j] = s_i
     out = []
     annot = "@vec\n" if False else ""
     out.append(f"{start}: " + "\n  | ".join(" ".join(a) + (f" {{{k}}}" if k else "") for a, k in top_alts) + ";")
